@@ -25,6 +25,11 @@
 (*            is NameC(container) (as _terminate names it) or               *)
 (*            NameI(instance)  (as _synchronize and the monitor name it)    *)
 (* s.tomb     containers whose exit tombstone the monitor has not handled   *)
+(* -- extension beyond C13: the cleanup service (treadmill/cleanup.py) --   *)
+(* s.svc      a cleanup service runs (= an inotify watch on cleanup/ exists) *)
+(* s.cpending events on cleanup/ it has not handled yet, oldest first       *)
+(* s.cleaning names of the links cleaning/<name> -> cleanup_apps/<name>     *)
+(* s.capps    names of the directories cleanup_apps/<name>                  *)
 (*                                                                          *)
 (* A link whose target directory is gone is still a link ("dangling"):      *)
 (* os.path.exists() is false for it, islink()/readlink()/rename() work.     *)
@@ -34,7 +39,9 @@ CONSTANTS Instances,    \* instance names the environment may place on the node
           MaxGen,       \* generations (placements) per instance
           MaxEvents,    \* environment events per behaviour
           Defects,      \* subset of AllDefects: which deviations of the code are modelled
-          LateMonitor   \* TRUE: a tombstone may be handled after a later generation was configured
+          LateMonitor,  \* TRUE: a tombstone may be handled after a later generation was configured
+          CleanupSvc    \* TRUE: the cleanup service is modelled (CleanupStart/CleanupEvent, invoke
+                        \* only through a cleaning app); FALSE: abstracted to "invoke happens some time"
 
 VARIABLES st, n
 vars == <<st, n>>
@@ -67,7 +74,19 @@ Range(f) == {f[x] : x \in DOMAIN f}
 EmptyFn == [x \in {} |-> 0]
 
 State0 == [cache |-> EmptyFn, ready |-> FALSE, active |-> FALSE, pending |-> <<>>,
-           apps |-> EmptyFn, running |-> EmptyFn, cleanup |-> EmptyFn, tomb |-> {}]
+           apps |-> EmptyFn, running |-> EmptyFn, cleanup |-> EmptyFn, tomb |-> {},
+           svc |-> FALSE, cpending |-> <<>>, cleaning |-> {}, capps |-> {}]
+
+(* every change of a name in cleanup/ is one directory event for the cleanup *)
+(* service, provided its watch exists: rename onto the name and              *)
+(* fs.symlink_safe (temporary dot link + rename) give CREATED, also when the *)
+(* name existed; unlink gives DELETED                                        *)
+LinkPut(s, nm, c) ==
+  [s EXCEPT !.cleanup = Put(@, nm, c),
+            !.cpending = IF s.svc THEN Append(@, Ev("C", nm)) ELSE @]
+LinkDel(s, nm) ==
+  [s EXCEPT !.cleanup = Del(@, nm),
+            !.cpending = IF s.svc THEN Append(@, Ev("D", nm)) ELSE @]
 
 CacheGen(s, a) == IF a \in DOMAIN s.cache THEN s.cache[a] ELSE 0
 Live(s, c) == c \in DOMAIN s.apps
@@ -108,14 +127,14 @@ DoMonitor(s, c) ==
   LET a == c.i
       s1 == [s EXCEPT !.tomb = @ \ {c}] IN
   IF a \in DOMAIN s.running
-  THEN [s1 EXCEPT !.running = Del(@, a), !.cleanup = Put(@, NameI(a), s.running[a])]
+  THEN LinkPut([s1 EXCEPT !.running = Del(@, a)], NameI(a), s.running[a])
   ELSE s1
 
 (* cleanup.Cleanup.invoke(name): readlink, runtime finish() removes the     *)
 (* container directory if it is still there, then the link is removed       *)
 DoCleanupDone(s, nm) ==
   LET c == s.cleanup[nm] IN
-  [s EXCEPT !.cleanup = Del(@, nm), !.apps = IF c \in DOMAIN @ THEN Del(@, c) ELSE @]
+  LinkDel([s EXCEPT !.apps = IF c \in DOMAIN @ THEN Del(@, c) ELSE @], nm)
 
 (* a new AppCfgMgr process: fresh inotify watch, inactive until the next    *)
 (* event on .ready                                                          *)
@@ -125,8 +144,44 @@ DoRestart(s) == [s EXCEPT !.active = FALSE, !.pending = <<>>]
 (* tree): "On startup run.sh will clear running and cleanup" (docstring of  *)
 (* _synchronize); apps/ and cache/ survive, every supervisor and with it    *)
 (* every pending exit tombstone is gone, a new manager starts inactive      *)
+(* (the cleanup service is one of those services: its watch and queue are   *)
+(* gone; cleaning/ and cleanup_apps/ are left to its next _sync)            *)
 DoNodeStart(s) == [s EXCEPT !.running = EmptyFn, !.cleanup = EmptyFn, !.tomb = {},
-                            !.active = FALSE, !.pending = <<>>]
+                            !.active = FALSE, !.pending = <<>>,
+                            !.svc = FALSE, !.cpending = <<>>]
+
+(* ---- cleanup service (extension) --------------------------------------- *)
+(* Cleanup._add_cleanup_app(name): nothing if cleaning/<name> is a link     *)
+(* already or cleanup/<name> is no link (any more); else create the         *)
+(* cleaning app directory and link it                                       *)
+AddCleanupApp(s, nm) ==
+  IF nm \in s.cleaning \/ nm \notin DOMAIN s.cleanup THEN s
+  ELSE [s EXCEPT !.cleaning = @ \cup {nm}, !.capps = @ \cup {nm}]
+(* Cleanup._remove_cleanup_app(name): the cleaning link is removed if it    *)
+(* exists (os.path.exists: not when it dangles), the directory in any case  *)
+RemoveCleanupApp(s, nm) ==
+  [s EXCEPT !.cleaning = IF nm \in s.capps THEN @ \ {nm} ELSE @,
+            !.capps = @ \ {nm}]
+RECURSIVE FoldNames(_, _, _)
+FoldNames(Op(_, _), s, names) ==
+  IF names = {} THEN s
+  ELSE LET nm == CHOOSE x \in names : TRUE IN FoldNames(Op, Op(s, nm), names \ {nm})
+(* Cleanup._sync(): add an app for every name in cleanup/, remove every     *)
+(* directory in cleanup_apps/ that has no name in cleanup/ (the names are   *)
+(* handled independently of each other, any order gives the same result)    *)
+CleanupSyncOp(s) ==
+  LET links == DOMAIN s.cleanup
+      s1 == FoldNames(AddCleanupApp, s, links)
+  IN FoldNames(RemoveCleanupApp, s1, s.capps \ links)
+(* Cleanup.run(): a new watch on cleanup/ (events of an older one are lost), *)
+(* then _sync()                                                             *)
+DoCleanupStart(s) == CleanupSyncOp([s EXCEPT !.svc = TRUE, !.cpending = <<>>])
+(* one event of the watch: on_created = _add_cleanup_app, on_deleted =      *)
+(* _remove_cleanup_app                                                      *)
+DoCleanupEvent(s) ==
+  LET e == Head(s.cpending)
+      p == [s EXCEPT !.cpending = Tail(@)]
+  IN IF e.k = "C" THEN AddCleanupApp(p, e.n) ELSE RemoveCleanupApp(p, e.n)
 
 (* ---- AppCfgMgr --------------------------------------------------------- *)
 (* _terminate(a): readlink running/a; rename it to cleanup/<container>;     *)
@@ -134,9 +189,10 @@ DoNodeStart(s) == [s EXCEPT !.running = EmptyFn, !.cleanup = EmptyFn, !.tomb = {
 Terminate(s, a) ==
   IF a \notin DOMAIN s.running THEN s
   ELSE LET c == s.running[a] IN
-       [s EXCEPT !.running = Del(@, a),
-                 !.cleanup = Put(@, NameC(c), c),
-                 !.apps = IF c \in DOMAIN @ THEN [@ EXCEPT ![c] = @ \cup {"terminated"}] ELSE @]
+       LinkPut([s EXCEPT !.running = Del(@, a),
+                         !.apps = IF c \in DOMAIN @ THEN [@ EXCEPT ![c] = @ \cup {"terminated"}]
+                                  ELSE @],
+               NameC(c), c)
 
 (* _configure(a): configure() builds apps/<unique name of the cache file    *)
 (* as it is NOW> (idempotent) or returns None when the file is gone;        *)
@@ -171,7 +227,7 @@ SyncOne(s, c, left, cg, D) ==
      THEN [s |-> s, left |-> IF genFix THEN keep ELSE FALSE]
      ELSE IF cachedThis /\ ~Finished(s, c)
      THEN [s |-> Configure(s, a), left |-> FALSE]
-     ELSE [s |-> [s EXCEPT !.cleanup = Put(@, lnk, c)], left |-> keep]
+     ELSE [s |-> LinkPut(s, lnk, c), left |-> keep]
 
 RECURSIVE SyncLoop(_, _, _, _, _, _)
 SyncLoop(s, a, gens, left, cg, D) ==
@@ -333,9 +389,14 @@ MonitorCleanup(c) == /\ Idle /\ c \in st.tomb
                         THEN st.running[c.i] = c ELSE TRUE
                      /\ st' = DoMonitor(st, c) /\ UNCHANGED n
 CleanupCompletes(nm) == /\ Idle /\ nm \in DOMAIN st.cleanup
+                        /\ CleanupSvc => st.svc /\ nm \in st.cleaning   \* run by its cleaning app
                         /\ st' = DoCleanupDone(st, nm) /\ UNCHANGED n
 ManagerRestart == /\ Env /\ st' = DoRestart(st) /\ n' = Tick
 NodeStart == /\ Env /\ st' = DoNodeStart(st) /\ n' = Tick
+(* extension: the cleanup service starts (again) / handles one event        *)
+CleanupStart == /\ CleanupSvc /\ Env /\ st' = DoCleanupStart(st) /\ n' = Tick
+CleanupEvent == /\ Idle /\ st.svc /\ st.cpending # <<>>
+                /\ st' = DoCleanupEvent(st) /\ UNCHANGED n
 
 Head1(s) == Head(s.pending)
 NoOrds == EmptyFn
@@ -374,6 +435,8 @@ Next ==
   \/ \E nm \in AllLinkNames : CleanupCompletes(nm)
   \/ ManagerRestart
   \/ NodeStart
+  \/ CleanupStart
+  \/ CleanupEvent
   \/ \E nm \in Names : OnCreated(nm)
   \/ \E nm \in Names : OnModified(nm)
   \/ \E nm \in Names : OnDeleted(nm)
@@ -394,6 +457,31 @@ PropSync == [][C13sync(st, StepKind, st')]_vars
 PropHandoff == [][C13handoff(st, StepKind, StepArg, st')]_vars
 PropNoRestart == [][C13noRestart(st, st')]_vars
 PropKeep == [][C13keep(st, StepKind, st')]_vars
+
+-----------------------------------------------------------------------------
+(* Extension: what the cleanup service guarantees (not part of C13).        *)
+(* a cleaning link never dangles                                            *)
+InvCleaning == st.cleaning \subseteq st.capps
+(* with the service running and nothing left to handle, cleaning apps and   *)
+(* cleanup links correspond one to one                                      *)
+InvQuiescent == st.svc /\ st.cpending = <<>> =>
+                  st.cleaning = DOMAIN st.cleanup /\ st.capps = st.cleaning
+(* _sync establishes that correspondence from any reachable state and is    *)
+(* idempotent                                                               *)
+InvSync == LET r == CleanupSyncOp(st) IN
+           /\ r.cleaning = DOMAIN st.cleanup /\ r.capps = r.cleaning
+           /\ CleanupSyncOp(r) = r
+           /\ r.cleanup = st.cleanup /\ r.apps = st.apps /\ r.running = st.running
+(* invoke removes exactly its own link and at most the directory that link  *)
+(* pointed to; no other step removes a container directory                  *)
+IsInvoke(nm) == nm \in DOMAIN st.cleanup /\ st' = DoCleanupDone(st, nm)
+PropInvoke == [][\A nm \in DOMAIN st.cleanup : IsInvoke(nm) =>
+                   /\ DOMAIN st'.cleanup = DOMAIN st.cleanup \ {nm}
+                   /\ \A x \in DOMAIN st'.cleanup : st'.cleanup[x] = st.cleanup[x]
+                   /\ DOMAIN st.apps \ DOMAIN st'.apps \subseteq {st.cleanup[nm]}
+                   /\ st'.running = st.running /\ st'.cleaning = st.cleaning]_vars
+PropDirsByInvoke == [][DOMAIN st.apps \ DOMAIN st'.apps # {} =>
+                         \E nm \in DOMAIN st.cleanup : IsInvoke(nm)]_vars
 
 TypeOK == /\ DOMAIN st.cache \subseteq Instances
           /\ DOMAIN st.apps \subseteq AllConts
